@@ -41,6 +41,8 @@ PROFILES = [
     Profile(max_events=16, min_events=5, tie_prob=0.4, mixed_tz=True, price_style="equal"),
     Profile(max_events=16, min_events=6, gap_style="long"),
     Profile(max_events=14, min_events=5, n_exchanges=2, n_holders=2, p_intra=0.3),
+    Profile(max_events=14, min_events=5, mixed_tz=True, gap_style="short", price_style="small", tie_prob=0.1, p_earn=0.3),
+    Profile(max_events=12, min_events=5, mixed_tz=True, gap_style="short", price_style="small", tie_prob=0.0, p_in=0.55, p_out=0.4, p_intra=0.05),
 ]
 
 
@@ -54,7 +56,7 @@ def tempting_extras(prefix: Dict[str, Any], cut: Any, rng: Any) -> List[Dict[str
     base_row = max(r["row"] for r in prefix["rows"]) + 100
     account = (prefix["rows"][0].get("ex") or prefix["exchanges"][0], prefix["rows"][0].get("ho") or prefix["holders"][0])
     for i, (delta, price) in enumerate(((timedelta(microseconds=1), high), (timedelta(microseconds=2), low), (timedelta(days=1), high))):
-        rows.append({"t": "IN", "row": base_row + i, "ts": fmt_ts(cut + delta, rng.choice((0, 330, -480))), "ex": account[0], "ho": account[1], "type": rng.choice(("BUY", "INTEREST")), "spot": dstr(price), "cin": dstr(Decimal(rng.choice(("0.5", "5", "5000")))), "cfee": None, "fin_nf": None, "fin_wf": None, "ffee": None, "uid": f"X-IN-{i}", "notes": ""})
+        rows.append({"t": "IN", "row": base_row + i, "ts": fmt_ts(cut + delta, rng.choice((0, 330, -480, -720, 840))), "ex": account[0], "ho": account[1], "type": rng.choice(("BUY", "INTEREST")), "spot": dstr(price), "cin": dstr(Decimal(rng.choice(("0.5", "5", "5000")))), "cfee": None, "fin_nf": None, "fin_wf": None, "ffee": None, "uid": f"X-IN-{i}", "notes": ""})
     # a disposal that exhausts whatever the prefix left in the account it lives in
     final = model.balances().get(account, {}).get("final")
     if final is not None and final > 0:
@@ -75,6 +77,21 @@ def _observe_prefixes(ctx: Any, ip: Any, hist: Dict[str, Any], sched: Dict[int, 
     ctx.count("executions")
     ctx.count("valid_cases")
     if not full.ok:
+        # the whole (valid) history fails: if a prefix of it computes, the continuation took the earlier results away
+        instants = sorted({parse_ts(r["ts"]).astimezone(timezone.utc) for r in hist["rows"]})
+        for cut in reversed(instants[:-1]):
+            prefix = dict(hist, rows=[r for r in hist["rows"] if parse_ts(r["ts"]).astimezone(timezone.utc) <= cut])
+            if not any(r["t"] == "IN" for r in prefix["rows"]) or min(sched) > min(parse_ts(r["ts"]).year for r in prefix["rows"]):
+                continue
+            a = ip.run(prefix, sched)
+            ctx.count("executions")
+            if a.ok and any(f.lot is not None for f in trace_of(a.computed)):
+                ctx.violation(
+                    "stability.valid-continuation-makes-the-run-fail",
+                    {"cut": str(cut), "error_with_continuation": full.error[:300], "fractions_computed_without_it": len(trace_of(a.computed))},
+                    {"hist": hist, "schedule": sched_json(sched), "cut": str(cut), "form": "prefix"},
+                )
+                return
         ctx.count("unobservable")
         ctx.tag("tag_unobservable", full.error[:80])
         return
@@ -111,6 +128,12 @@ def _observe_prefixes(ctx: Any, ip: Any, hist: Dict[str, Any], sched: Dict[int, 
         ctx.count("executions")
         if b.ok:
             pairs.append(("tempting-extras", trace_of(b.computed), Model(extended)))
+        elif is_valid(Model(extended)):
+            ctx.violation(
+                "stability.valid-continuation-makes-the-run-fail",
+                {"cut": str(cut), "continuation": "tempting-extras", "error_with_continuation": b.error[:300], "fractions_computed_without_it": len(a_keys)},
+                dict(case, continuation="tempting-extras", extras=extras),
+            )
         else:
             ctx.count("extras_rejected")
         for name, b_trace, b_model in pairs:
@@ -211,6 +234,19 @@ def replay(ctx: Any, case: Dict[str, Any]) -> None:
     sched = sched_from_json(case["schedule"])
     if case.get("form") == "to-date":
         _observe_todate(ctx, ip, case["hist"], sched, case["to"])
+    elif case.get("extras"):
+        from rpv.drive_inproc import trace_of
+
+        hist = case["hist"]
+        prefix = dict(hist, rows=[r for r in hist["rows"] if str(parse_ts(r["ts"]).astimezone(timezone.utc)) <= case["cut"]])
+        extended = dict(prefix, rows=prefix["rows"] + case["extras"])
+        a, b = ip.run(prefix, sched), ip.run(extended, sched)
+        if a.ok and not b.ok and is_valid(Model(extended)):
+            ctx.violation("stability.valid-continuation-makes-the-run-fail", {"error_with_continuation": b.error[:300]}, case)
+        elif a.ok and b.ok:
+            cut = max(parse_ts(r["ts"]).astimezone(timezone.utc) for r in prefix["rows"])
+            if [f.key() for f in trace_of(a.computed)] != _keys(trace_of(b.computed), Model(extended), cut):
+                ctx.violation("stability.earlier-fractions-changed", {"continuation": "tempting-extras"}, case)
     else:
         import random
 
